@@ -8,6 +8,7 @@ import re
 
 from core import Property, Stream, enc, enc_list, enc_bool, enc_opt, dec, run_driver
 import cli
+from se2e import SpdxE2EStream
 
 # --------------------------------------------------------------------------
 # independent pieces: tag-value reader, licence-expression reader, truth tables
@@ -966,8 +967,13 @@ class SmallStream(Stream):
 
 PROPERTY = Property(
     pid="C18",
-    streams=[SmallStream(), CheckerStream(), SimplifyStream2(), TreeStream(), BoundaryStream()],
+    streams=[SmallStream(), CheckerStream(), SimplifyStream2(), TreeStream(), BoundaryStream(), SpdxE2EStream()],
     assumptions=[
+        "stream spdx-e2e: the composed model (Model/SpdxE2E.lean) receives the tree itself (bytes of every regular file) and computes walk, "
+        "own source, REUSE.toml chain, extraction, attribution, file reports, LICENSES/ entries and their decoded texts, and the document; "
+        "oracles there (parameters, answered by the real libraries): hashlib sha1 / md5, license-expression (parses?, keys, str, ==), "
+        "boolean.py (simplify), binaryornot, tomlkit, python-debian; outside the composed model: symlinks below LICENSES/, "
+        "multiprocessing, --output",
         "sha1 and md5 are parameters of the model (the checksum arrives as data, the SPDXID digest as a table computed with hashlib); "
         "uniqueness of SPDXIDs is proved assuming the digest is injective on the finite set {name ++ checksum} of the project",
         "boolean.py's simplify/render and license-expression's parser are not modelled: every LicenseConcluded the tool emits is "
